@@ -103,6 +103,11 @@ def step (s : DS) (toks : List String) : DS × String :=
   | ["write", p, t] => match unhexStr p, unhexStr t with
       | some p, some t => ({ s with files := (p, t) :: s.files.filter (·.1 ≠ p) }, "ok")
       | _, _ => (s, "bad-op")
+  | ["hashfile", p] => match unhexStr p with
+      | some p => match s.files.find? (·.1 = p) with
+          | some (_, t) => (s, fullStr (hashStr t))
+          | none => (s, "missing")
+      | none => (s, "bad-op")
   | ["rm", p] => match unhexStr p with
       | some p => ({ s with files := s.files.filter (·.1 ≠ p) }, "ok")
       | none => (s, "bad-op")
